@@ -574,19 +574,9 @@ func (vm *VM) nextCall() bool {
 			// call, it will be executed, otherwise the previous call will be
 			// finalized.
 			if call.status == recovered {
-				numPanicked := 0
-				for _, c := range vm.calls {
-					if c.status == panicked {
-						numPanicked++
-					}
-				}
-				num := 0
-				for p := vm.panic; p != nil; p = p.next {
-					num++
-				}
-				for p := vm.panic; num > numPanicked; num-- {
-					p = p.next
-					vm.panic = p
+				vm.panic = vm.panic.next
+				for vm.panic != nil && vm.panic.aborted {
+					vm.panic = vm.panic.next
 				}
 				call.status = returned
 			}
@@ -605,9 +595,17 @@ func (vm *VM) nextCall() bool {
 			continue
 		case panicked:
 			// A call is panicked, the first deferred call in the call stack,
-			// if there is one, will be executed.
+			// if there is one, will be executed. The panics of the panicked
+			// calls that are left are aborted: they stay in the chain until
+			// the panic that aborted them is recovered.
+			p := vm.panic
 			for i = i - 1; i >= 0; i-- {
 				call = vm.calls[i]
+				if call.status == panicked || call.status == recovered {
+					for p = p.next; p.aborted; p = p.next {
+					}
+					p.aborted = true
+				}
 				if call.status == deferred {
 					// The registers of the deferred call are moved above
 					// the registers of the function that deferred it, as
